@@ -374,7 +374,16 @@ def gen_history(rng: Any, seed: int) -> dict:
         victim, slow = rng.sample(names, 2)
         ops[victim]["lifetime"] = rng.choice([1, 2, 3])
         delivery[slow] = float(max(1, min(5, ops[victim]["lifetime"] - 1)))
+    resp_lat: dict[str, float] = {}
+    if rng.random() < 0.10:
+        # somebody is stopped within its first moments, its first keep-alive PATCH applied but not yet answered
+        nm = rng.choice(names)
+        resp_lat[nm] = rng.choice([2 / 64, 4 / 64, 0.25])
+        t0 = min(e[0] for e in tl if e[1] == "start" and e[2] == nm)
+        if not any(e[1] in ("stop", "kill") and e[2] == nm and e[0] <= t0 + 2 for e in tl):
+            tl.append([t0 + rng.choice([2, 3, 4, 5]) / 64, "stop", nm])
     return {"seed": seed, "peering": rng.choice(["default", "verif-peers"]), "ops": ops, "pre_status": pre,
+            "response_latency": resp_lat,
             "sticky_identities": rng.random() < 0.25,
             "objects": [{"name": "a", "body": {"spec": {"x": 0}}}], "timeline": sorted(tl, key=lambda e: e[0]),
             "delivery": delivery, "end": end}
@@ -755,7 +764,7 @@ def oracle_history(ctx: Ctx, sc: dict, tr: dict, full: bool = False) -> dict:
             for r in mine:
                 if r["watch"] and r["t"] <= p0 and r.get("response") == 200:
                     ca = r.get("closed_at")
-                    if (ca is None and r.get("still_open") and p1 - p0 > 4 * LAT) or (ca is not None and ca > p0 + 2 * LAT and ca < p1):
+                    if (ca is None and r.get("still_open") and p1 - p0 > 4 * LAT) or (ca is not None and ca > max(p0, r["t"] + LAT) + 1e-9 and ca < p1):
                         fail(f"operator {i['name']} paused at {p0} but its watch stream opened at {r['t']} stayed open until {ca}",
                              "pause: watch stream not closed", inc=i["inc"], t=p0)
                         break
@@ -890,7 +899,8 @@ def check_direct(ctx: Ctx, cases: list[dict], reqs: list, impls: list, wheres: l
 
 
 def check_keepalive(ctx: Ctx) -> None:
-    ka = [[L, j, "cancel" if (L + j) % 7 == 0 else "stop"] for L in list(range(0, 131)) + [600, 3600, -4] + DAYS for j in range(5, 11)]
+    ka = [[L, j, "cancel" if (L + j) % 7 == 0 else "cancel_in_first_touch" if (L + j) % 7 == 1 else "stop"]
+          for L in list(range(0, 131)) + [600, 3600, -4] + DAYS for j in range(5, 11)]
     touch = [[p, L, a] for p in (0, 7, -2) for L in [60, 1, 0, -3, 2] + DAYS for a in (None, 0, 5, 86400, 172801)]
     res = _run_pool([{"kind": "ka", "ka": ka, "touch": touch}], wall=120.0)[0]["trace"]
     reqs, impls, wh = [], [], []
@@ -898,6 +908,13 @@ def check_keepalive(ctx: Ctx) -> None:
         L, j = r["lifetime"], r["jitter"]
         ctx.case(key={"ka": [min(L, 12), j]}, nontrivial=True)
         ctx.count("keepalive.lifetime", "0" if L == 0 else "1" if L == 1 else "2-6" if L <= 6 else "7-15" if L <= 15 else ">15" if L < 86399 else ">=1day")
+        if r["how"] == "cancel_in_first_touch":
+            # stopped while the very first PATCH is in flight (the server may have applied it): the withdrawal must follow
+            if r["touches"] != [None, 0]:
+                ctx.oracle_fail(f"keepalive cancelled during its first touch made the touches {r['touches']}: no lifetime=0 withdrawal follows, "
+                                f"although the first PATCH may have reached the server", {"keepalive": r},
+                                {"site": "peering.keepalive", "shape": "no withdrawal on exit"})
+            continue
         if r["bounds"] != [[5, 10]] or len(r["sleeps"]) != 1:
             ctx.tie_fail("keepalive no longer draws one jitter from randint(5, 10) per round", {"keepalive": r})
             continue
